@@ -24,14 +24,10 @@ template <typename TN_, typename TA_, typename TH_, typename... TS_>
 HFSM2_CONSTEXPR(14)
 bool
 O_<TN_, TA_, TH_, TS_...>::deepForwardEntryGuard(GuardControl& control) noexcept {
-	const ProngCBits requested = orthoRequested(static_cast<const GuardControl&>(control));
-
 	ScopedRegion region{control, REGION_ID, HEAD_ID, REGION_SIZE};
 
-	if (requested)
-		return SubStates::wideForwardEntryGuard(control, requested);
-	else
-		return SubStates::wideForwardEntryGuard(control);
+	// requests that resolve the whole region set requested prongs in sub-states the prong bits do not cover
+	return SubStates::wideForwardEntryGuard(control);
 }
 
 // - - - - - - - - - - - - - - - - - - - - - - - - - - - - - - - - - - - - - - -
@@ -223,14 +219,10 @@ template <typename TN_, typename TA_, typename TH_, typename... TS_>
 HFSM2_CONSTEXPR(14)
 bool
 O_<TN_, TA_, TH_, TS_...>::deepForwardExitGuard(GuardControl& control) noexcept {
-	const ProngCBits requested = orthoRequested(static_cast<const GuardControl&>(control));
-
 	ScopedRegion region{control, REGION_ID, HEAD_ID, REGION_SIZE};
 
-	if (requested)
-		return SubStates::wideForwardExitGuard(control, requested);
-	else
-		return SubStates::wideForwardExitGuard(control);
+	// requests that resolve the whole region set requested prongs in sub-states the prong bits do not cover
+	return SubStates::wideForwardExitGuard(control);
 }
 
 // - - - - - - - - - - - - - - - - - - - - - - - - - - - - - - - - - - - - - - -
